@@ -272,6 +272,21 @@ def run(prop, argv, meta_focus):
     chk.log("translated")
     chk.coq("Properties_%s.v" % prop)
     chk.log("coq done")
+    if prop == "C02":
+        # store-buffer half: the waker/waiter skeleton with the fences regenerated from the source, on the TSO machine of coq/WM
+        defs = ("Require Import Verif.Gen.Gen_bounded_queue.\n"
+                "Definition df : bool := match sites_deal_n with [_; _; (KFence, o, _)] => is_seq_cst o | _ => false end.\n"
+                "Definition tf : bool := match sites_try_deal_n with [_; _; _; _; (KFence, o, _)] => is_seq_cst o | _ => false end.\n"
+                "Definition xr : bool := match sites_xchg with [(KXchg, _, _)] => true | _ => false end.")
+        chk.wm_litmus("deal_n-fence", defs, "batch_wake_safe df", "[waker df; waiter]", "lost_wakeup",
+                      "deal_n_continuously's fence between the version stores and wakeup_waiters is not seq_cst: a waiter "
+                      "can park while the batch waker misses its waiter bit (lost wakeup)")
+        chk.wm_litmus("try_deal_n-fence", defs, "batch_wake_safe tf", "[waker tf; waiter]", "lost_wakeup",
+                      "try_deal_n_continuously's fence between the version stores and wakeup_waiters is not seq_cst: a "
+                      "waiter can park while the batch waker misses its waiter bit (lost wakeup)")
+        chk.wm_litmus("xchg-waker", defs, "xr && xchg_wake_safe", "[xchg_waker; waiter]", "xchg_lost",
+                      "set_version_and_wakeup_waiters no longer publishes with one exchange of the whole word: a waiter can "
+                      "park unseen by the single-element waker")
     model = chk.extract("bq", "Extract_bq.v", "bq_driver.ml", explorer=True)
     chk.log("model extracted")
     impl = chk.build_cpp("c01_bounded_queue", [os.path.join(VERIF, "harness/conc/c01_bounded_queue.cpp"),
